@@ -15,6 +15,7 @@
 (*   Timeout           a Read call failed with a deadline error (transport *)
 (*                     runs on a harness conn with real deadlines)         *)
 (*   Close             the owner closed the connection                     *)
+(*   CallerErr         an exchange on the transport returned an error      *)
 (*   anything else (Panic, Hang) is not an action: the trace is rejected   *)
 (*                                                                         *)
 (* (ii) writer runs: every Write call a real writer (WriteRawMsgToTCP,     *)
@@ -67,6 +68,8 @@ Reader ==
           /\ UNCHANGED <<rd, closed>>
        \* the connection was closed by its owner / a caller got an error: nothing to check
        \/ /\ IsEvent("Close") /\ closed' = TRUE /\ UNCHANGED <<rd, outcome>>
+       \* an exchange on the transport ended in an error: says nothing about framing
+       \/ /\ IsEvent("CallerErr") /\ UNCHANGED <<rd, closed, outcome>>
        \/ /\ IsEvent("Err") /\ outcome = "err" /\ UNCHANGED <<rd, closed, outcome>>
        \/ /\ IsEvent("Err") /\ outcome = "run"
           /\ \/ rd.st = "err" /\ outcome' = "err"
